@@ -16,7 +16,7 @@ RULE = ("executable programs over the native gate set with aliases-of-aliases an
 ASSUMPTIONS = ["statement-level queries on busy gates are made through the circuit only",
                "reference used set = syntactic reachability through macros, loops of any count, nested blocks, aliases, lets; busy = all qubits, idle = none"]
 TIERS = {"quick": {"shards": 8, "budget_s": 120}, "thorough": {"shards": 16, "budget_s": 360}}
-REQUIRE = {"whole-register-arguments-analysed": 3000, "busy-gate-beside-active": 100, "busy-gate-beside-active:stretched": 100, "macro-parameters-given-a-kind": 500, "macro-bodies-analysed-in-a-second-call-site-scope": 100, "macro-bodies-analysed-in-call-site-scope": 300, "gate-set:Ad": 500, "overlap:ref-yes": 100, "overlap:ref-no": 300, "used-circuit-compared": 500, "used-statement-compared": 500,
+REQUIRE = {"circuits-built-through-CircuitBuilder": 800, "whole-register-arguments-analysed": 3000, "busy-gate-beside-active": 100, "busy-gate-beside-active:stretched": 100, "macro-parameters-given-a-kind": 500, "macro-bodies-analysed-in-a-second-call-site-scope": 100, "macro-bodies-analysed-in-call-site-scope": 300, "gate-set:Ad": 500, "overlap:ref-yes": 100, "overlap:ref-no": 300, "used-circuit-compared": 500, "used-statement-compared": 500,
            "permutations-compared": 100, "merge-decisions-observed": 500, "idle-beside-active": 10}
 
 MERGE_LOG = []
@@ -57,8 +57,8 @@ def ref_used_of_tree(P, nd, regname):
 def judge(case):
     prog = case_prog(case)
     variant = case.get("variant", "A")
-    st, s = X.setup(prog, variant=variant)
-    if st.startswith("skipped:input-rejected:JaqalError") and X.refused_when_built(prog, None, variant):
+    st, s = X.setup(prog, variant=variant, assemble=("builder", case["bseed"]) if case.get("bseed") is not None else False)
+    if case.get("bseed") is None and st.startswith("skipped:input-rejected:JaqalError") and X.refused_when_built(prog, None, variant):
         # an otherwise valid program without overlapping branches, refused when it was built
         return "ok", [("rejects-disjoint-program:when-built", {"error": str(s.parse_outcome[2])[:200]})], {}
     if st != "ok":
@@ -440,6 +440,10 @@ def shard(ctx):
             case["variant"] = "Ad"  # every gate definition derived by copy() from one that was already used
         if rng.random() < 0.25:
             case["typed"] = True
+        if rng.random() < 0.2 and not case.get("typed"):
+            # the circuit put together through the CircuitBuilder (loops, macros built at once or unevaluated)
+            case["bseed"] = rng.randrange(1 << 30)
+            rec.count("circuits-built-through-CircuitBuilder")
         if rng.random() < 0.15:
             st_ = rng.random() < 0.5
             bp = busy_beside(rng, prog, st_)
